@@ -11,6 +11,8 @@ import LiteFSVerif.Proofs.Image
 import LiteFSVerif.Proofs.Engine
 import LiteFSVerif.Proofs.Log
 import LiteFSVerif.Proofs.Wal
+import LiteFSVerif.Gen.Skel
+import LiteFSVerif.Model.ExpectedSkel
 
 set_option linter.unusedSimpArgs false
 
@@ -130,5 +132,17 @@ theorem C03_scan_is_next_transaction (w : ByteArray) (ps off : Nat) (bo : Option
   · intro p hp
     rw [h8] at hp
     exact Sqlite.lastFrame_none w off (24 + ps) k p hp
+
+/-- the control skeletons (branch conditions, loop heads, returns, order of calls and of state
+    assignments) of `DB.WriteWALAt`, `DB.CommitWAL`, `DB.Unlock`, `DB.UnlockSHM`, `DB.UnlockDatabase`, regenerated from the current source on every run, are the ones the
+    model was written and validated against (Model/ExpectedSkel.lean): a reordered, dropped or
+    altered check or call in these functions breaks this theorem -/
+theorem C03_source_skeletons :
+    Gen.Skel.DB_WriteWALAt = Expected.Skel.DB_WriteWALAt ∧
+    Gen.Skel.DB_CommitWAL = Expected.Skel.DB_CommitWAL ∧
+    Gen.Skel.DB_Unlock = Expected.Skel.DB_Unlock ∧
+    Gen.Skel.DB_UnlockSHM = Expected.Skel.DB_UnlockSHM ∧
+    Gen.Skel.DB_UnlockDatabase = Expected.Skel.DB_UnlockDatabase :=
+  ⟨rfl, rfl, rfl, rfl, rfl⟩
 
 end LiteFSVerif.C03
